@@ -4,7 +4,9 @@ Everything is plain JSON-able data:
   chain = {"segs": [{"args": [word, ...], "pipe": bool, "bg": bool, "env": bool}, ...], "ops": [op, ...]}
   pos   = {"pre": None|"py"|"cmd", "post": None|"py"|"cmd", "semi": "tight"|"spaced",
            "wrap": None | ["block", kind, depth, unit, sibling] | ["oneline", kind], "cont": None | [boundary, ws],
-           "prelude": None | [kind, "top" | "inner"]}
+           "prelude": None | [kind, "top" | "inner"], "tail": None | "comment" (`  # c` after the line),
+           "blank": None | "before" (an empty line in front of the line), "eol": "lf" | "crlf" | "cr" (line ends of the
+           WHOLE program, bare and explicit alike)}
 A prelude is a statement placed BEFORE the bare line that binds every identifier spelled on the line (command words
 included) in a scope that has ENDED when the line is reached (parameters of another function / lambda, names local to
 a function or class body, comprehension variables, an `except ... as` name after its handler, a deleted name): the
@@ -18,13 +20,15 @@ import re
 BASE = "a"
 # the word alphabet of the statement (alternative 0 = BASE); two-token words are redirects with a target
 ARGS = ["-l", "--k=v", "./p", "a.b", "1", "x=y", "a:b", ",a", "'q r'", '"d"', "$V", "${'V'}", "@(ev)", "$(ia i)", "@$(ia i)", "> f", "2>&1", "e>o", "< g"]
+# quoted strings that span two physical lines (the logical line then has several physical lines)
+TQ_WORDS = ['"""a\nb"""', "'''a\nb'''"]
 SEGFEATS = ("pipe", "bg", "env")
 OPS = ("&&", "||", "and", "or", ";")
 SIMPLER_OP = {"||": "&&", "or": "&&", "and": "&&"}
 KINDS = ("if", "for", "while", "with", "try", "def")
 ONELINE_QUICK = ("if",)
 ONELINE_RICH = ("if", "for", "with", "def", "else", "try")
-POS0 = {"pre": None, "post": None, "semi": "tight", "wrap": None, "cont": None, "prelude": None}
+POS0 = {"pre": None, "post": None, "semi": "tight", "wrap": None, "cont": None, "prelude": None, "tail": None, "blank": None, "eol": "lf"}
 
 
 def seg0(nwords):
@@ -38,19 +42,24 @@ def blocks(thorough):
     """The enumerated space as blocks; inside a block the product (skeleton x word deviations x positions) is
     complete.  segs=(min,max) segments, words = max words per segment (command word included), wsel = which
     per-segment word-count tuples ('all' | 'eq2' = two words everywhere | 'uniform3' = three words everywhere), kf = max word/segment-feature deviations from the
-    all-`a` chain (kfmin..kf), kp = max position deviations (kpmin..kp), rich = the larger position catalogue,
+    all-`a` chain (kfmin..kf), tq = how many of the two multi-line triple-quoted words are in the alphabet, kp = max position deviations (kpmin..kp), rich = the larger position catalogue,
     exec = which agreeing pairs are also executed ('slice' | 'none' | 'all'); pairs with differing trees always are;
     prelude = the positions are those of the prelude family (prelude_positions) instead of the plain ones."""
-    d = dict(kfmin=0, kpmin=0, wsel="all", rich=False, exec="slice", prelude=False)
+    d = dict(kfmin=0, kpmin=0, wsel="all", rich=False, exec="slice", prelude=False, tq=2)
     if not thorough:
         spec = [
             dict(id="s2w3-kf1-kp1", segs=(1, 2), words=3, kf=1, kp=1),
-            dict(id="s2w2-kf2-kp0", segs=(1, 2), words=2, kf=2, kfmin=2, kp=0, exec="none"),
+            dict(id="s2w2-kf2-kp0", tq=1, segs=(1, 2), words=2, kf=2, kfmin=2, kp=0, exec="none"),
             dict(id="s2w2-kf0-kp2", segs=(1, 2), words=2, kf=0, kp=2, kpmin=2, exec="none"),
             # prelude family (names of the line bound in a scope that has ended): prelude x word deviation at top
             # level, prelude x one other position deviation for plain words
-            dict(id="prelude-s2w2-kf1-kp0", segs=(1, 2), words=2, kf=1, kp=0, prelude=True),
+            dict(id="prelude-s2w2-kf1-kp0", tq=1, segs=(1, 2), words=2, kf=1, kp=0, prelude=True),
             dict(id="prelude-s2w2-kf0-kp1", segs=(1, 2), words=2, kf=0, kp=1, kpmin=1, prelude=True, exec="none"),
+            # line-ending family (the whole program with CRLF line ends, bare and explicit alike), with the layout
+            # positions (trailing comment, empty line in front) next to continuations
+            dict(id="eol-s2w2-kf1-kp1-layout", tq=1, segs=(1, 2), words=2, kf=1, kp=1, family="eol", fields=("cont", "tail", "blank")),
+            dict(id="eol-s2w2-kf0-kp1", segs=(1, 2), words=2, kf=0, kp=1, kpmin=1, family="eol", exec="none"),
+            dict(id="eol-s2w2-kf0-kp2-layout", segs=(1, 2), words=2, kf=0, kp=2, kpmin=2, family="eol", fields=("cont", "tail", "blank", "pre", "post"), exec="none"),
         ]
     else:
         spec = [
@@ -66,6 +75,10 @@ def blocks(thorough):
             dict(id="prelude-s3w2-kf0-kp0-rich", segs=(3, 3), words=2, kf=0, kp=0, rich=True, prelude=True, exec="none"),
             dict(id="prelude-s2w2-kf0-kp1-rich", segs=(1, 2), words=2, kf=0, kp=1, kpmin=1, rich=True, prelude=True, exec="none"),
             dict(id="prelude-s2w2-kf1-kp1", segs=(1, 2), words=2, wsel="eq2", kf=1, kfmin=1, kp=1, kpmin=1, prelude=True, exec="none"),
+            dict(id="eol-s2w3-kf1-kp1-layout", segs=(1, 2), words=3, kf=1, kp=1, family="eol", eols=("crlf", "cr"), fields=("cont", "tail", "blank", "pre", "post")),
+            dict(id="eol-s2w2-kf1-kp1", segs=(1, 2), words=2, kf=1, kp=1, kpmin=1, family="eol", eols=("crlf", "cr"), exec="none"),
+            dict(id="eol-s3w2-kf0-kp1", segs=(3, 3), words=2, kf=0, kp=1, family="eol", eols=("crlf", "cr"), exec="none"),
+            dict(id="eol-s2w2-kf0-kp2", segs=(1, 2), words=2, kf=0, kp=2, kpmin=2, family="eol", eols=("crlf", "cr"), exec="none"),
         ]
     return [dict(d, **b) for b in spec]
 
@@ -79,11 +92,11 @@ def _wcounts(nseg, words, wsel):
         yield wc
 
 
-def _places(wc):
+def _places(wc, tq=2):
     out = []
     for i, w in enumerate(wc):
         for j in range(w - 1):
-            out += [("arg", i, j, a) for a in ARGS]
+            out += [("arg", i, j, a) for a in ARGS + TQ_WORDS[:tq]]
         out += [("feat", i, f, True) for f in SEGFEATS]
     return out
 
@@ -92,7 +105,7 @@ def chains(b):
     """Every chain of block b, simplest first."""
     for nseg in range(b["segs"][0], b["segs"][1] + 1):
         for wc in _wcounts(nseg, b["words"], b["wsel"]):
-            places = _places(wc)
+            places = _places(wc, b.get("tq", 2))
             for ops in itertools.product(OPS, repeat=nseg - 1):
                 for r in range(b["kfmin"], b["kf"] + 1):
                     for combo in itertools.combinations(places, r):
@@ -266,13 +279,27 @@ def prelude_lines(kind, names):
     raise ValueError(kind)
 
 
+EOLS = {"lf": "\n", "crlf": "\r\n", "cr": "\r"}
+
+
 def render(chain, pos, explicit):
+    """The whole program; every line end (also inside a multi-line string or after a backslash) in the convention
+    of pos["eol"] - what a file saved with those line ends contains."""
+    text = _render_lf(chain, pos, explicit)
+    eol = pos.get("eol", "lf")
+    return text if eol == "lf" else text.replace("\n", EOLS[eol])
+
+
+def _render_lf(chain, pos, explicit):
     L = render_line(chain, explicit, pos["semi"], pos["cont"])
     cz = "![cz z]" if explicit else "cz z"
     if pos["pre"]:
         L = ("n = 1" if pos["pre"] == "py" else cz) + "; " + L
     if pos["post"]:
         L = L + "; " + ("n = 2" if pos["post"] == "py" else cz)
+    if pos.get("tail") == "comment":
+        L += "  # c"
+    gap = "\n" if pos.get("blank") == "before" else ""  # an empty physical line directly in front of the line
     w = pos["wrap"]
     pl = pos.get("prelude")
     top, inner = [], []
@@ -284,16 +311,16 @@ def render(chain, pos, explicit):
             top = lines
     head = "".join(x + "\n" for x in top)
     if w is None:
-        return head + L + "\n"
+        return head + gap + L + "\n"
     if w[0] == "oneline":
         k = w[1]
         if k == "else":
-            return head + "if not ok: pass\nelse: " + L + "\n"
+            return head + "if not ok: pass\n" + gap + "else: " + L + "\n"
         if k == "try":
-            return head + "try: " + L + "\nfinally: pass\n"
+            return head + gap + "try: " + L + "\nfinally: pass\n"
         if k == "def":
-            return head + "def fn(): " + L + "\nfn()\n"
-        return head + HEAD[k] + " " + L + "\n"
+            return head + gap + "def fn(): " + L + "\nfn()\n"
+        return head + gap + HEAD[k] + " " + L + "\n"
     _, kind, depth, unit, sib = w
     lines = [unit * d + "if ok:" for d in range(depth - 1)]
     ind, body = unit * (depth - 1), unit * depth
@@ -301,6 +328,8 @@ def render(chain, pos, explicit):
     lines += [body + x.replace("    ", unit) for x in inner]
     if sib in ("before", "both"):
         lines.append(body + "n = 1")
+    if gap:
+        lines.append("")
     lines.append(body + L)
     if sib in ("after", "both"):
         lines.append(body + "n = 2")
@@ -341,18 +370,24 @@ def _wraps(rich):
 
 
 def _field_values(chain, rich, semi):
-    f = {"pre": ["py", "cmd"], "post": ["py", "cmd"], "wrap": _wraps(rich)}
+    f = {"pre": ["py", "cmd"], "post": ["py", "cmd"], "wrap": _wraps(rich), "tail": ["comment"], "blank": ["before"]}
     wss = ("", "  ") if rich else ("",)
     f["cont"] = [[j, ws] for j in boundaries(chain, semi) for ws in wss]
     return f
 
 
-def positions(chain, kp, rich, kpmin=0):
-    """Every position with kpmin..kp deviations from 'alone at top level', simplest first."""
+def positions(chain, kp, rich, kpmin=0, layout=None, fields=None):
+    """Every position with kpmin..kp deviations from 'alone at top level', simplest first.  The layout fields
+    (trailing comment, empty line in front) belong to the rich catalogue (layout=None) or are switched explicitly;
+    `fields` restricts which fields may deviate."""
     has_semi = ";" in chain["ops"]
-    fields = ["pre", "post", "wrap", "cont"] + (["semi"] if has_semi else [])
+    names = ["pre", "post", "wrap", "cont"] + (["semi"] if has_semi else [])
+    if layout or (layout is None and rich):
+        names += ["tail", "blank"]
+    if fields is not None:
+        names = [f for f in names if f in fields]
     for r in range(kpmin, kp + 1):
-        for combo in itertools.combinations(fields, r):
+        for combo in itertools.combinations(names, r):
             semi = "spaced" if "semi" in combo else "tight"
             fv = _field_values(chain, rich, semi)
             fv["semi"] = ["spaced"]
@@ -363,11 +398,28 @@ def positions(chain, kp, rich, kpmin=0):
                 yield pos
 
 
+def eol_positions(chain, kp, rich, kpmin=0, fields=None, eols=("crlf",)):
+    """The line-ending family: the whole program with CRLF (/ lone CR) line ends x every position with kpmin..kp
+    other deviations, layout fields included."""
+    for pos in positions(chain, kp, rich, kpmin, layout=True, fields=fields):
+        for eol in eols:
+            yield dict(pos, eol=eol)
+
+
+def block_positions(b, chain):
+    """The positions of block b for one chain."""
+    if b.get("family") == "eol":
+        return eol_positions(chain, b["kp"], b["rich"], b["kpmin"], b.get("fields"), b.get("eols", ("crlf",)))
+    if b.get("prelude"):
+        return prelude_positions(chain, b["kp"], b["rich"], b["kpmin"])
+    return positions(chain, b["kp"], b["rich"], b["kpmin"], fields=b.get("fields"))
+
+
 def prelude_positions(chain, kp, rich, kpmin=0):
     """The prelude family: every prelude kind (placed at module level; in the rich catalogue also inside the enclosing
     block) x every position with kpmin..kp OTHER deviations."""
     kinds = PRELUDES_RICH if rich else PRELUDES_QUICK
-    for pos in positions(chain, kp, rich, kpmin):
+    for pos in positions(chain, kp, rich, kpmin, layout=False):
         places = ["top"] + (["inner"] if rich and pos["wrap"] and pos["wrap"][0] == "block" else [])
         for place in places:
             for kind in kinds:
@@ -375,11 +427,13 @@ def prelude_positions(chain, kp, rich, kpmin=0):
 
 
 def n_pos_devs(pos):
-    return sum(1 for k, v in pos.items() if v != POS0[k])
+    return sum(1 for k, v in POS0.items() if pos.get(k, v) != v)
 
 
 def pos_label(pos):
     parts = []
+    if pos.get("eol", "lf") != "lf":
+        parts.append("eol=" + pos["eol"])
     if pos.get("prelude"):
         parts.append("prelude=" + pos["prelude"][0] + ("/inner" if pos["prelude"][1] == "inner" else ""))
     if pos["pre"]:
@@ -395,6 +449,10 @@ def pos_label(pos):
         else:
             unit = {"    ": "sp4", "\t": "tab", "  ": "sp2"}.get(w[3], repr(w[3]))
             parts.append(f"block-{w[1]}/d{w[2]}/{unit}" + (f"/sib-{w[4]}" if w[4] else ""))
+    if pos.get("blank"):
+        parts.append("blank-before")
+    if pos.get("tail"):
+        parts.append("tail-comment")
     if pos["cont"]:
         parts.append(f"cont@{pos['cont'][0]}" + ("+ws" if pos["cont"][1] else ""))
     return ",".join(parts) or "top"
@@ -421,7 +479,7 @@ def feature_class(chain):
     for s in chain["segs"]:
         fs.update(a for a in s["args"] if a != BASE)
         fs.update(f for f in SEGFEATS if s[f])
-    return "+".join(sorted(fs)).replace(" ", "") or "-"
+    return "+".join(sorted(fs)).replace(" ", "").replace("\n", "\\n") or "-"
 
 
 def in_exec_slice(chain, pos):
@@ -450,9 +508,11 @@ def _with_cont(chain, pos):
 def reductions(chain, pos):
     """Candidate simplifications, in a fixed order (positions first, then segments, features, words, operators)."""
     # positions
-    for f in ("prelude", "wrap", "cont", "pre", "post", "semi"):
-        if pos.get(f) != POS0[f]:
+    for f in ("eol", "prelude", "wrap", "cont", "pre", "post", "semi", "tail", "blank"):
+        if pos.get(f, POS0[f]) != POS0[f]:
             yield chain, dict(pos, **{f: POS0[f]})
+    if pos.get("eol", "lf") == "cr":
+        yield chain, dict(pos, eol="crlf")
     pl = pos.get("prelude")
     if pl:
         if pl[1] != "top":
@@ -500,6 +560,12 @@ def reductions(chain, pos):
                 c = _copy(chain)
                 c["segs"][i]["args"][j] = BASE
                 yield from _with_cont(c, pos)
+    for i in range(n):
+        for j, a in enumerate(chain["segs"][i]["args"]):
+            if a in TQ_WORDS[1:]:  # the other quote kind is the same word for most failures
+                c = _copy(chain)
+                c["segs"][i]["args"][j] = TQ_WORDS[0]
+                yield c, pos
     for i in range(n):
         for j in reversed(range(len(chain["segs"][i]["args"]))):
             c = _copy(chain)
